@@ -23,7 +23,8 @@ def FLOORS(tier):
     q = tier == "quick"
     f = {"ties>=2-minimisers": 300 if q else 10000, "constant-model": 40, "empty-model": 10, "nothing-valid": 100,
          "method-calls": 400 if q else 10000, "valid-predicate-calls": 10000 if q else 5 * 10 ** 5, "with-offset": 300,
-         "method:PCBO-with-constraints": 20, "stale-model": 50}
+         "method:PCBO-with-constraints": 20, "stale-model": 50, "huge-offset": 100, "valid-argument-omitted": 100,
+         "free-function-on-constrained-model": 15}
     for fn in FUNCS.values():
         f["fn:" + fn] = 200 if q else 8000
     for k in ("bool", "spin"):
@@ -58,6 +59,9 @@ def case(ctx, rng, idx):
     else:
         terms = gen.rand_terms(rng, labs, 2 if deg2 else 3, coefs=[-2, -1, 1, 2, 1, -1, 0.5], lo=1, hi=6)
         terms = {tuple(gen.sort_labels(k)) if tn == "dict" else k: v for k, v in terms.items()}
+    if terms and rng.random() < 0.08:
+        terms[()] = terms.get((), 0) + rng.choice([2 ** 34, -2 ** 40, 2 ** 31 + 1])      # exact in floats, dwarfs every gap
+        ctx.cat("huge-offset")
     ctx.cat("type:" + tn)
     stale = False
     if tn == "dict":
@@ -138,7 +142,20 @@ def case(ctx, rng, idx):
             fname = FUNCS[(kind, False)]
         ctx.cat("fn:" + fname)
         w["function"] = fname
-        ok, res = ctx.call(fname, getattr(L.utils, fname), m, alls, valid, _w=w)
+        if pk == "all" and rng.random() < 0.6:
+            # default predicate: the argument is omitted.  A PCBO/PCSO may carry a recorded (unpenalised) constraint: the
+            # free functions minimise the model as given, over ALL assignments
+            if tn in ("PCBO", "PCSO") and tv and rng.random() < 0.7:
+                m.add_constraint_eq_zero({(tv[0],): 1, (): (0 if kind == "bool" else 1)}, lam=0)
+                ctx.cat("free-function-on-constrained-model")
+                snap = dict(m)
+                snap_book = (m.variables, m.mapping)
+            ctx.cat("valid-argument-omitted")
+            w["valid"] = "omitted"
+            ok, res = ctx.call(fname, getattr(L.utils, fname), m, alls, _w=w) if rng.random() < 0.5 else \
+                ctx.call(fname, getattr(L.utils, fname), m, all_solutions=alls, _w=w)
+        else:
+            ok, res = ctx.call(fname, getattr(L.utils, fname), m, alls, valid, _w=w)
         if ok:
             if not (isinstance(res, tuple) and len(res) == 2):
                 ctx.violation("result-shape", "returned %r" % (res,), w)
@@ -183,6 +200,10 @@ def case(ctx, rng, idx):
             ctx.violation(tag + "solution-not-a-minimiser", "solution %r is not among the %d valid minimisers (min %r)" % (s, len(exp), exp_obj), w)
             return
     if alls:
+        seen = [sorted(d.items(), key=repr) for d in sols]
+        if len({repr(x) for x in seen}) != len(seen):
+            ctx.violation(tag + "all_solutions-duplicates", "the same assignment is returned more than once: %r" % (sols[:4],), w)
+            return
         if stale:
             got = norm([{v: s[v] for v in tv} for s in sols])
             if sorted(set(map(str, got))) != sorted(set(map(str, norm(exp)))):
